@@ -150,10 +150,15 @@ class BinaryCarver(BaseCarver):
         # checking for empty datasets
         xtabs = {feature: None for feature in features}
         if X is not None:
+            # by position: index labels may be duplicated; a boolean target is used as 0/1
+            target = y.reset_index(drop=True)
+            if target.dtype == bool:
+                target = target.astype(int)
+
             # crosstab for each feature
             for feature in features:
-                # computing crosstab with str_nan (by position: index labels may be duplicated)
-                xtab = crosstab(X[feature].reset_index(drop=True), y.reset_index(drop=True))
+                # computing crosstab with str_nan
+                xtab = crosstab(X[feature].reset_index(drop=True), target)
 
                 # reordering according to known_order (a modality without observation has no row)
                 xtab = xtab.reindex(labels_orders[feature], fill_value=0)
